@@ -651,17 +651,16 @@ Proof.
 Qed.
 
 Theorem sm_step_refines c m s o :
-  0 < c -> R c m s ->
+  R c m s ->
   let '(m', ob, d) := sm_step m o in
-  let '(s', ob', d') := smap_step true s o in
+  let '(s', ob', d') := smap_step s o in
   ob = ob' /\ Permutation d d' /\ R c m' s'.
 Proof.
-  intros Hc0 (Hmc & K & D).
+  intros (Hmc & K & D).
   pose proof (KI_bounded _ _ _ _ _ K) as Hb.
   pose proof K as (Li & Lf & P & Nd & M & Oc).
   pose proof D as (Hc & _ & Ls & Lv & QI & Qc & Cor & Inj & NdF & Fr & Ln & Hl & Pm).
-  assert (Hdev : (true && (mcap s =? 0)) = false) by (destruct (N.eqb_spec (mcap s) 0); [lia|reflexivity]).
-  destruct o as [v|k v|k|k|k| | | |]; cbn [sm_step smap_step]; rewrite ?Hdev.
+  destruct o as [v|k v|k|k|k| | | |]; cbn [sm_step smap_step].
   - (* insert *)
     unfold sm_insert. destruct (mfree s) as [|k r] eqn:EF.
     + cbn [path] in P. unfold sm_acquire. rewrite P. cbn [bind unres3].
@@ -745,8 +744,8 @@ Proof.
         apply KI_release; auto.
       * rewrite Ck. cbn [unres3]. split; [reflexivity|]. split; [reflexivity|]. unfold R; auto.
   - (* get *)
-    unfold sm_get. rewrite Hmc.
-    destruct (N.ltb_spec k c) as [Hkb|Hge].
+    unfold sm_get. rewrite Hmc, Li.
+    destruct (N.ltb_spec k c) as [Hkb|Hge]; destruct (N.leb_spec c k); try lia.
     + rewrite (geti_val _ _ None) by lia. cbn [bind]. fold (geto (i2d m) k).
       pose proof (Cor k Hkb) as Ck. unfold mget. fold (nthN (mvals s) k None). fold (geto (mvals s) k).
       destruct (geto (i2d m) k) as [d|] eqn:Hg.
@@ -754,17 +753,17 @@ Proof.
         fold (geto (sdata m) d). rewrite Hsd. destruct (geto (mvals s) k) as [x|]; [|congruence]. cbn [unres1].
         split; [reflexivity|]. split; [reflexivity|]. unfold R; auto.
       * rewrite Ck. cbn [unres1]. split; [reflexivity|]. split; [reflexivity|]. unfold R; auto.
-    + rewrite geti_panic by lia. cbn [bind unres1]. split; [reflexivity|]. split; [reflexivity|]. unfold R; auto.
+    + cbn [unres1]. split; [reflexivity|]. split; [reflexivity|]. unfold R; auto.
   - (* contains *)
-    unfold sm_contains. rewrite Hmc.
-    destruct (N.ltb_spec k c) as [Hkb|Hge].
+    unfold sm_contains. rewrite Hmc, Li.
+    destruct (N.ltb_spec k c) as [Hkb|Hge]; destruct (N.leb_spec c k); try lia.
     + rewrite (geti_val _ _ None) by lia. cbn [bind unres1]. fold (geto (i2d m) k).
       pose proof (Cor k Hkb) as Ck. unfold mget. fold (nthN (mvals s) k None). fold (geto (mvals s) k).
       destruct (geto (i2d m) k) as [d|] eqn:Hg.
       * destruct Ck as (_ & _ & Hvk). destruct (geto (mvals s) k); [|congruence].
         split; [reflexivity|]. split; [reflexivity|]. unfold R; auto.
       * rewrite Ck. split; [reflexivity|]. split; [reflexivity|]. unfold R; auto.
-    + rewrite geti_panic by lia. cbn [bind unres1]. split; [reflexivity|]. split; [reflexivity|]. unfold R; auto.
+    + cbn [unres1]. split; [reflexivity|]. split; [reflexivity|]. unfold R; auto.
   - (* next_free_key *)
     apply path_head in P. rewrite P. split; [reflexivity|]. split; [reflexivity|]. unfold R; auto.
   - (* iteration *)
@@ -823,9 +822,9 @@ Proof.
   change 0 with (N.of_nat 0). rewrite map_nth. rewrite seq_nth by lia. lia.
 Qed.
 
-Lemma R_new c : 0 < c -> R c (sm_new c) (smap_new c).
+Lemma R_new c : R c (sm_new c) (smap_new c).
 Proof.
-  intros Hc. set (n := N.to_nat c).
+  set (n := N.to_nat c).
   assert (Eabs : abs (dnf (sm_new c)) = map N.of_nat (seq 0 n)).
   { unfold abs, sm_new. cbn [dnf start len cap data]. fold n. replace (c - c) with 0 by lia.
     rewrite (abs_from_init n c n 0) by (subst n; lia). reflexivity. }
@@ -834,7 +833,7 @@ Proof.
     + rewrite lenN_repeat. subst n; lia.
     + unfold lenN. rewrite map_length, seq_length. subst n; lia.
     + pose proof (init_path n n 0%nat ltac:(lia)) as P. cbn [Nat.eqb] in P.
-      destruct (Nat.eqb_spec n 0); [subst n; lia|]. exact P.
+      destruct (Nat.eqb_spec n 0) as [E0|E0]; destruct (N.eqb_spec c 0); try (subst n; lia); exact P.
     + apply NoDup_map_seq.
     + intros k; split.
       * intros H. apply in_map_iff in H. destruct H as (j & <- & Hj). apply in_seq in Hj.
@@ -859,64 +858,39 @@ Proof.
     + unfold sm_new, smap_new; cbn [sdata mvals]. reflexivity.
 Qed.
 
-(* ---------- capacity 0: the state never changes; insert panics, next_free_key says Some(0) ---------- *)
-Lemma sm_step_cap0 o :
-  let '(m', ob, d) := sm_step (sm_new 0) o in
-  let '(s', ob', d') := smap_step true (smap_new 0) o in
-  m' = sm_new 0 /\ s' = smap_new 0 /\ ob = ob' /\ d = d'.
-Proof.
-  destruct o as [v|k v|k|k|k| | | |]; cbn [sm_step smap_step].
-  - vm_compute. auto.
-  - destruct k; vm_compute; auto.
-  - destruct k; vm_compute; auto.
-  - unfold sm_get. rewrite geti_panic by (vm_compute; destruct k; discriminate).
-    destruct k; vm_compute; auto.
-  - unfold sm_contains. rewrite geti_panic by (vm_compute; destruct k; discriminate).
-    destruct k; vm_compute; auto.
-  - vm_compute. auto.
-  - vm_compute. auto.
-  - vm_compute. auto.
-  - vm_compute. auto.
-Qed.
-
 (* ---------- runs ---------- *)
 Fixpoint sm_run (m : slotmap) (ops : list mop) : list (obs * list N) :=
   match ops with [] => [] | o :: t => let '(m', ob, d) := sm_step m o in (ob, d) :: sm_run m' t end.
-Fixpoint smap_run (dev : bool) (s : smap) (ops : list mop) : list (obs * list N) :=
-  match ops with [] => [] | o :: t => let '(s', ob, d) := smap_step dev s o in (ob, d) :: smap_run dev s' t end.
+Fixpoint smap_run (s : smap) (ops : list mop) : list (obs * list N) :=
+  match ops with [] => [] | o :: t => let '(s', ob, d) := smap_step s o in (ob, d) :: smap_run s' t end.
 
 (* same returned value; same drop log up to order (the order differs only at container drop) *)
 Definition obs_rel (a b : obs * list N) : Prop := fst a = fst b /\ Permutation (snd a) (snd b).
 
 Theorem sm_refines_map : forall (c : N) (ops : list mop),
-  Forall2 obs_rel (sm_run (sm_new c) ops) (smap_run true (smap_new c) ops).
+  Forall2 obs_rel (sm_run (sm_new c) ops) (smap_run (smap_new c) ops).
 Proof.
-  intros c ops. destruct (N.eq_dec c 0) as [->|Hc].
-  - induction ops as [|o t IH]; cbn [sm_run smap_run]; [constructor|].
-    pose proof (sm_step_cap0 o) as H.
-    destruct (sm_step (sm_new 0) o) as [[m' ob] d], (smap_step true (smap_new 0) o) as [[s' ob'] d'].
-    destruct H as (-> & -> & -> & ->). constructor; [split; cbn; auto|exact IH].
-  - assert (Hc0 : 0 < c) by lia. generalize (R_new c Hc0). generalize (sm_new c) (smap_new c).
-    induction ops as [|o t IH]; intros m s HR; cbn [sm_run smap_run]; [constructor|].
-    pose proof (sm_step_refines c m s o Hc0 HR) as H.
-    destruct (sm_step m o) as [[m' ob] d], (smap_step true s o) as [[s' ob'] d'].
-    destruct H as (-> & Hp & HR'). constructor; [split; cbn; auto|apply IH; exact HR'].
+  intros c ops. generalize (R_new c). generalize (sm_new c) (smap_new c).
+  induction ops as [|o t IH]; intros m s HR; cbn [sm_run smap_run]; [constructor|].
+  pose proof (sm_step_refines c m s o HR) as H.
+  destruct (sm_step m o) as [[m' ob] d], (smap_step s o) as [[s' ob'] d'].
+  destruct H as (-> & Hp & HR'). constructor; [split; cbn; auto|apply IH; exact HR'].
 Qed.
 
 (* reachable pairs of states *)
 Inductive mreach (c : N) : slotmap -> smap -> Prop :=
 | mreach0 : mreach c (sm_new c) (smap_new c)
-| mreachS m s o : mreach c m s -> mreach c (fst (fst (sm_step m o))) (fst (fst (smap_step true s o))).
+| mreachS m s o : mreach c m s -> mreach c (fst (fst (sm_step m o))) (fst (fst (smap_step s o))).
 
-Theorem mreach_R c m s : 0 < c -> mreach c m s -> R c m s.
+Theorem mreach_R c m s : mreach c m s -> R c m s.
 Proof.
-  intros Hc. induction 1 as [|m s o H IH]; [apply R_new; auto|].
-  pose proof (sm_step_refines c m s o Hc IH) as HS.
-  destruct (sm_step m o) as [[m' ob] d], (smap_step true s o) as [[s' ob'] d']. cbn [fst]. tauto.
+  induction 1 as [|m s o H IH]; [apply R_new; auto|].
+  pose proof (sm_step_refines c m s o IH) as HS.
+  destruct (sm_step m o) as [[m' ob] d], (smap_step s o) as [[s' ob'] d']. cbn [fst]. tauto.
 Qed.
 
 (* the invariant of the property statement, spelled out on the concrete fields *)
-Theorem sm_invariant c m s : 0 < c -> mreach c m s ->
+Theorem sm_invariant c m s : mreach c m s ->
   (* the free list from the head is a duplicate-free doubly linked path ... *)
   path (flist m) None (fhead m) (mfree s) /\ NoDup (mfree s) /\
   (* ... covering exactly the keys with idx_to_data = INVALID *)
@@ -935,15 +909,15 @@ Theorem sm_invariant c m s : 0 < c -> mreach c m s ->
   (* len = number of occupied keys *)
   smlen m = lenN (filter is_some (mvals s)).
 Proof.
-  intros Hc H. destruct (mreach_R c m s Hc H) as (_ & (_ & _ & P & Nd & M & Oc) & (_ & _ & _ & _ & _ & _ & Cor & Inj & NdF & Fr & Ln & Hl & _)).
+  intros H. destruct (mreach_R c m s H) as (_ & (_ & _ & P & Nd & M & Oc) & (_ & _ & _ & _ & _ & _ & Cor & Inj & NdF & Fr & Ln & Hl & _)).
   refine (conj P (conj Nd (conj M (conj Oc (conj NdF (conj Fr (conj Ln (conj Cor (conj Inj Hl))))))))).
 Qed.
 
 (* insert: returns a key that was free (never overwrites a live entry, drops nothing), changes no
    other key, and fails -- dropping exactly the rejected value -- only when every key is occupied *)
-Theorem sm_insert_fresh c m s v : 0 < c -> mreach c m s ->
+Theorem sm_insert_fresh c m s v : mreach c m s ->
   let '(m', ob, d) := sm_step m (MInsert v) in
-  let '(s', _, _) := smap_step true s (MInsert v) in
+  let '(s', _, _) := smap_step s (MInsert v) in
   match ob with
   | OO (Some k) => k < c /\ mget s k = None /\ d = [] /\ mget s' k = Some v /\
                    (forall j, j <> k -> mget s' j = mget s j)
@@ -951,12 +925,10 @@ Theorem sm_insert_fresh c m s v : 0 < c -> mreach c m s ->
   | _ => False
   end.
 Proof.
-  intros Hc H. pose proof (mreach_R c m s Hc H) as HR.
-  pose proof (sm_step_refines c m s (MInsert v) Hc HR) as HS.
+  intros H. pose proof (mreach_R c m s H) as HR.
+  pose proof (sm_step_refines c m s (MInsert v) HR) as HS.
   destruct HR as (Hmc & (Li & Lf & P & Nd & M & Oc) & (_ & _ & _ & Lv & _ & _ & Cor & _)).
   destruct (sm_step m (MInsert v)) as [[m' ob] d]. cbn [smap_step] in *.
-  assert (Hdev : (true && (mcap s =? 0)) = false) by (destruct (N.eqb_spec (mcap s) 0); [lia|reflexivity]).
-  rewrite Hdev in *.
   destruct (mfree s) as [|k r] eqn:EF.
   - destruct HS as (-> & Hp & _). split; [|split; [|reflexivity]].
     + intros j Hj E. specialize (Cor j Hj). unfold mget in E. fold (nthN (mvals s) j None) in E. fold (geto (mvals s) j) in E.
@@ -981,13 +953,12 @@ Definition mop_in (o : mop) : list N := match o with MInsert v | MInsertAt _ v =
 Definition mop_out (o : mop) (ob : obs) : list N :=
   match o, ob with MRemove _, OO (Some x) => [x] | _, _ => [] end.
 
-Lemma smap_step_conserves c m s o : 0 < c -> R c m s -> o <> MDrop ->
-  let '(s', ob, d) := smap_step true s o in
+Lemma smap_step_conserves c m s o : R c m s -> o <> MDrop ->
+  let '(s', ob, d) := smap_step s o in
   Permutation (mop_in o ++ live s) (mop_out o ob ++ d ++ live s').
 Proof.
-  intros Hc (Hmc & (Li & Lf & P & Nd & M & Oc) & (_ & _ & _ & Lv & _ & _ & Cor & _)) Hnd.
-  assert (Hdev : (true && (mcap s =? 0)) = false) by (destruct (N.eqb_spec (mcap s) 0); [lia|reflexivity]).
-  destruct o as [v|k v|k|k|k| | | |]; cbn [smap_step mop_in]; rewrite ?Hdev; try congruence.
+  intros (Hmc & (Li & Lf & P & Nd & M & Oc) & (_ & _ & _ & Lv & _ & _ & Cor & _)) Hnd.
+  destruct o as [v|k v|k|k|k| | | |]; cbn [smap_step mop_in]; try congruence.
   - destruct (mfree s) as [|k r] eqn:EF; cbn [mop_out live mvals app]; [reflexivity|].
     assert (Hk : k < c /\ geto (i2d m) k = None) by (apply M; cbn; auto). destruct Hk as (Hk & Hg).
     specialize (Cor k Hk). rewrite Hg in Cor.
@@ -1012,7 +983,7 @@ Fixpoint smap_totals (s : smap) (ops : list mop) : list N * list N * smap :=
   match ops with
   | [] => ([], [], s)
   | o :: t =>
-    let '(s', ob, d) := smap_step true s o in
+    let '(s', ob, d) := smap_step s o in
     let '(ins, outs, sf) := smap_totals s' t in
     (mop_in o ++ ins, mop_out o ob ++ d ++ outs, sf)
   end.
@@ -1021,16 +992,16 @@ Fixpoint smap_totals (s : smap) (ops : list mop) : list N * list N * smap :=
 Definition sm_final (m : slotmap) (ops : list mop) : slotmap :=
   fold_left (fun m o => fst (fst (sm_step m o))) ops m.
 
-Lemma smap_conservation c : 0 < c -> forall ops m s, R c m s -> Forall (fun o => o <> MDrop) ops ->
+Lemma smap_conservation c : forall ops m s, R c m s -> Forall (fun o => o <> MDrop) ops ->
   let '(ins, outs, sf) := smap_totals s ops in
   Permutation (ins ++ live s) (outs ++ live sf) /\ R c (sm_final m ops) sf.
 Proof.
-  intros Hc. induction ops as [|o t IH]; intros m s HR Hf; cbn [smap_totals sm_final fold_left].
+  induction ops as [|o t IH]; intros m s HR Hf; cbn [smap_totals sm_final fold_left].
   - split; [reflexivity|exact HR].
   - inversion Hf as [|? ? Ho Ht]; subst.
-    pose proof (smap_step_conserves c m s o Hc HR Ho) as H1.
-    pose proof (sm_step_refines c m s o Hc HR) as H2.
-    destruct (sm_step m o) as [[m' ob0] d0], (smap_step true s o) as [[s' ob] d]. cbn [fst].
+    pose proof (smap_step_conserves c m s o HR Ho) as H1.
+    pose proof (sm_step_refines c m s o HR) as H2.
+    destruct (sm_step m o) as [[m' ob0] d0], (smap_step s o) as [[s' ob] d]. cbn [fst].
     destruct H2 as (_ & _ & HR').
     specialize (IH m' s' HR' Ht). unfold sm_final in IH. destruct (smap_totals s' t) as [[ins outs] sf]. destruct IH as (IH & Hex).
     split; [|exact Hex].
@@ -1039,15 +1010,15 @@ Proof.
     rewrite Permutation_app_comm. exact IH.
 Qed.
 
-(* whole life of a slot map with capacity > 0: the values that entered (insert, insert_at) are,
+(* whole life of a slot map of any capacity (0 included): the values that entered (insert, insert_at) are,
    as multisets, the values handed back (remove) plus the values dropped (overwritten by
    insert_at, rejected by a failing insert / insert_at) plus what the container's Drop releases;
    and the concrete Drop log is a permutation of the values still stored. *)
-Theorem sm_drop_once : forall c ops, 0 < c -> Forall (fun o => o <> MDrop) ops ->
+Theorem sm_drop_once : forall c ops, Forall (fun o => o <> MDrop) ops ->
   let '(ins, outs, sf) := smap_totals (smap_new c) ops in
   Permutation ins (outs ++ sm_drop_log (sm_final (sm_new c) ops)).
 Proof.
-  intros c ops Hc Hf. pose proof (smap_conservation c Hc ops _ _ (R_new c Hc) Hf) as H.
+  intros c ops Hf. pose proof (smap_conservation c ops _ _ (R_new c) Hf) as H.
   destruct (smap_totals (smap_new c) ops) as [[ins outs] sf]. destruct H as (H & HR).
   assert (E : live (smap_new c) = []).
   { unfold live, smap_new; cbn [mvals]. generalize (N.to_nat c) as n. induction n; cbn; auto. }
@@ -1056,28 +1027,11 @@ Proof.
   unfold sm_drop_log, live. rewrite <- Pm. apply Permutation_rev.
 Qed.
 
-(* ---------- where the reference with the deviations differs from the reference of the property ---------- *)
-Definition dev_free (s : smap) (o : mop) : Prop :=
-  0 < mcap s /\ match o with MGet k | MContains k => k < mcap s | _ => True end.
-
-Lemma smap_dev_agree s o : dev_free s o -> smap_step true s o = smap_step false s o.
-Proof.
-  intros (Hc & Ho). assert (E : (mcap s =? 0) = false) by (destruct (N.eqb_spec (mcap s) 0); [lia|reflexivity]).
-  destruct o; cbn [smap_step]; rewrite ?E; cbn [andb]; try reflexivity;
-    destruct (N.ltb_spec k (mcap s)); try lia; reflexivity.
-Qed.
-
-(* the clause as the property states it (reference without deviations) is false of the faithful model *)
-Definition sm_refines_map_full : Prop := forall (c : N) (ops : list mop),
-  Forall2 obs_rel (sm_run (sm_new c) ops) (smap_run false (smap_new c) ops).
-
-Lemma sm_refines_map_refuted : ~ sm_refines_map_full.
-Proof.
-  intros H. specialize (H 0 [MInsert 1]). vm_compute in H. inversion H as [|? ? ? ? Hx]; subst.
-  destruct Hx as (Hx & _). cbn in Hx. discriminate.
-Qed.
-
-(* second, independent witness: capacity 1, get(key = capacity) *)
-Lemma sm_get_oob_witness :
-  snd (fst (sm_step (sm_new 1) (MGet 1))) = OP /\ snd (fst (smap_step false (smap_new 1) (MGet 1))) = OO None.
-Proof. split; reflexivity. Qed.
+(* ---------- regression histories: the former deviations (fixed in /repo by 6ffc44e, c891c8c) ---------- *)
+Lemma sm_regression_cap0 :
+  map fst (sm_run (sm_new 0) [MInsert 1; MNextFree; MGet 0; MContains 0; MRemove 0; MInsertAt 0 2]) =
+  [OO None; OO None; OO None; OB false; OO None; OB false].
+Proof. reflexivity. Qed.
+Lemma sm_regression_oob :
+  map fst (sm_run (sm_new 1) [MGet 1; MContains 1; MGet 7]) = [OO None; OB false; OO None].
+Proof. reflexivity. Qed.
